@@ -50,9 +50,11 @@ class Fault:
 
 def choose_out(rng, S, mode=None):
     ids = [n.id for n in S.ir.nodes if S.rp.role[n.id] != "producer"]
-    mode = mode or rng.choice(["none", "none", "one", "some", "all", "sinks"])
+    mode = mode or rng.choice(["none", "none", "one", "some", "all", "sinks", "bare", "bare"])
     if mode == "none" or not ids:
         return None
+    if mode == "bare":
+        return regmodel.Bare(rng.choice(ids))  # output=<the node itself>, not a list
     if mode == "one":
         return [rng.choice(ids)]
     if mode == "all":
@@ -87,7 +89,7 @@ def c09_check(S, exp, out_ids, result):
     idchecks = 0
     normchecks = 0
     for n in exp.writes:  # rebuilt stored values
-        nm = f"s{n}"
+        nm = S.store_name[n]
         w_end = last.get(("wr_end", nm))
         w_eff = last.get(("wr_effect", nm))
         if w_end is None:
@@ -103,22 +105,27 @@ def c09_check(S, exp, out_ids, result):
             if st is None:
                 continue
             if m in S.argsucc[n]:
-                r_end = last.get(("rd_end", nm))
-                if r_end is None or st < r_end:
-                    return f"consumer n{m} started (seq {st}) before the rebuilt value of n{n} was written and read back (read end seq {r_end})", 0, 0
+                # some read of that store must lie completely between the end of the write and the consumer's start
+                # (a store shared with an alias source is read once per registered node that is consumed)
+                ok = any(w_end < s0 and s1 < st for _, s0, s1 in S.stores[n].reads_returned)
+                if not ok:
+                    return (f"consumer n{m} started (seq {st}) before the rebuilt value of n{n} was written (write end seq {w_end}) and read back "
+                            f"(reads of the store: {[(a, b) for _, a, b in S.stores[n].reads_returned]})"), 0, 0
             elif st < w_end:
                 return f"plain dependent n{m} started (seq {st}) before the rebuilt value of n{n} was written (seq {w_end})", 0, 0
         # every stored value downstream is rebuilt in the same run and after it
         for m in S.reg:
             if n in S.reg_anc[m]:
                 if rp.role[m] == "stored":
-                    me = first.get(("wr_effect", f"s{m}"))
+                    me = first.get(("wr_effect", S.store_name[m]))
                     if me is None:
                         return f"stored n{m} is downstream of rebuilt n{n} but was not rewritten in the same run", 0, 0
                     if me < w_eff:
                         return f"downstream stored n{m} was written (seq {me}) before upstream n{n} (seq {w_eff})", 0, 0
+                elif rp.role[m] == "alias":
+                    pass  # shares the store of its (rebuilt) target
                 elif rp.role[m] == "dsrc":
-                    me = first.get(("side_write", f"s{m}"))
+                    me = first.get(("side_write", S.store_name[m]))
                     if me is None or me < w_eff:
                         return f"dependent source n{m} downstream of rebuilt n{n} was not re-produced after it", 0, 0
     # a dependent source that is out of date is read only after the calls it depends on have run
@@ -126,9 +133,16 @@ def c09_check(S, exp, out_ids, result):
         if rp.role[d] == "dsrc" and exp.ood[d] and d in exp.reads:
             p = rp.producer_of[d]
             pe = last.get(("end", p))
-            r_start = first.get(("rd", f"s{d}"))
+            r_start = first.get(("rd", S.store_name[d]))
             if pe is None or r_start is None or r_start < pe:
                 return f"out-of-date dependent source n{d} was read (seq {r_start}) before its producer n{p} finished (seq {pe})", 0, 0
+    # an out-of-date alias source (shares the store of a rebuilt node, ordered after it by a dependency) is read after that write
+    for a, tgt in rp.alias_of.items():
+        if exp.ood[a] and a in exp.reads and tgt in exp.writes:
+            w_end = last.get(("wr_end", S.store_name[tgt]))
+            rds = [s_ for s_, k, key, tid, x in H.events if k == "rd" and key == S.store_name[a]]
+            if w_end is None or not rds or min(rds) < w_end:
+                return f"alias source n{a} (store of rebuilt n{tgt}) was read (seq {min(rds) if rds else None}) before the write of n{tgt} ended (seq {w_end})", 0, 0
     # identity: what consumers and the output receive is the object returned by the store's read in this run
     for m, (args, kwitems) in H.args_seen.items():
         n = ir.nodes[m]
@@ -140,18 +154,20 @@ def c09_check(S, exp, out_ids, result):
                 st = S.stores[p]
                 if st.normalising:
                     normchecks += 1
-                if g is not st.last_read:
-                    return (f"consumer n{m} received {g!r} for registered n{p}, which is not the object returned by the store's read "
-                            f"in this run ({st.last_read!r})"), idchecks, normchecks
+                m_start = first.get(("start", m))
+                if not any(g is rr and s1 < m_start for rr, s0, s1 in st.reads_returned):
+                    return (f"consumer n{m} (started seq {m_start}) received {g!r} for registered n{p}, which is not an object returned by a read of "
+                            f"the store that finished before it started ({st.reads_returned!r})"), idchecks, normchecks
     if out_ids is not None and result is not None:
-        for g, o in zip(result, out_ids):
+        pairs = [(result, int(out_ids))] if isinstance(out_ids, regmodel.Bare) else list(zip(result, out_ids))
+        for g, o in pairs:
             if o in S.reg:
                 idchecks += 1
                 st = S.stores[o]
                 if st.normalising:
                     normchecks += 1
-                if g is not st.last_read:
-                    return f"run output for registered n{o} is {g!r}, not the value returned by the store's read ({st.last_read!r})", idchecks, normchecks
+                if not any(g is rr for rr, _, _ in st.reads_returned):
+                    return f"run output for registered n{o} is {g!r}, not a value returned by the store's read ({st.reads_returned!r})", idchecks, normchecks
     return None, idchecks, normchecks
 
 
@@ -168,7 +184,7 @@ def run_history(desc, props=("C03", "C05", "C09")):
     log = []
     stats = collections.Counter()
     psrcs = [i for i in S.reg if rp.role[i] == "psrc"]
-    deletable = [i for i in S.reg if rp.role[i] in ("stored", "dsrc")]
+    deletable = [i for i in S.reg if rp.role[i] in ("stored", "dsrc", "slit")]
     last_ok = False
     for si in range(steps):
         r = rng.random()
